@@ -84,6 +84,12 @@ def run_shard(spec, ctx):
         ci = (spec["k"] + i * 16) % len(CELLS)
         cell = CELLS[ci]
         what = WHATS[(spec["k"] // 2 + i) % len(WHATS)] if spec["k"] >= 8 else WHATS[spec["k"] % len(WHATS)]
+        # plan of the first case of each shard (all the quick tier runs): the 3-feature model with two sources is also FITTED (its logs plot 12 files,
+        # two full pages), and stays personalised by the second mixture shard
+        if spec["k"] == 4 and i % 2 == 0:
+            what = "fit"
+        elif spec["k"] == 15 and i % 2 == 0:
+            cell, what = CELLS[4], "mode_posterior"
         if what == "simulate" and (cell[0] != "logistic" or cell[3] == "bernoulli" or cell[2] < 1):
             cell = CELLS[0]
         if cell[0] == "mixture_logistic" and what != "fit":
@@ -161,6 +167,8 @@ def run_shard(spec, ctx):
             if what == "fit":
                 variants.append({"prelude": [], "logs": {"path": None, "print_periodicity": 2}})  # console printing only, no folder
                 variants.append({"prelude": [], "logs": None, "reuse_settings": True})  # settings object that already served another fit
+                # every kind of output on (console, saved parameters, convergence plots at two iterations): always present, whatever the draws above
+                variants.append({"prelude": [], "logs": {"path": "tmp", "print_periodicity": 1, "save_periodicity": 2, "plot_periodicity": 4}})
             dirty = _run_worker(dict(base_job, variants=variants), 0, 1500)
             errs = {e.get("variant"): e for e in dirty.get("errors", [])}
             for j, var in enumerate(variants):
